@@ -38,7 +38,9 @@ func init() {
 			"shared by position in a block, all blocks merged, welded on the marched attribute, scaled by the sampling factor. FIELD-IDX/TREE/ALL/CAP: " +
 			"in fields assembled from members through an octree query (CombineFields, MultiSegmentLine) the per-member tables are subscripted with " +
 			"the element ids read from the query result (never the position in the hit list or a constant), the tree is built over exactly those " +
-			"members in table order, every hit is folded, and the closure sees the table and tree of the iteration that created it. Not decided: geometric " +
+			"members in table order, every hit is folded, and the closure sees the table and tree of the iteration that created it. FIELD-OUT: what such " +
+			"a field reports where no member applies, and what a fresh canvas block holds, is a finite constant on the outside of the sign convention " +
+			"(SYM-ALG's interpolation identity holds for finite samples only: an infinite sample gives Inf/Inf = NaN vertices). Not decided: geometric " +
 			"closeness for non-linear fields, decimal rounding merging distinct vertices at high resolution, degenerate triangles when a sample equals " +
 			"the threshold, whether a shape's declared domain really contains its inside, numeric volume, the parallel variants (C10).",
 		Assumptions: []string{
@@ -121,7 +123,7 @@ func run(c *props.Ctx) {
 	weldRules(c, path, blockSite)
 	engineSelfTest(c, t)
 	siteControls(c, ctl, ax)
-	fieldIdxRules(c, sp)
+	fieldIdxRules(c, sp, blockSite == nil || blockSite.inside)
 	dump(c)
 
 	// vacuity floors guard a *passing* run against rules that silently match nothing; when something is
